@@ -62,6 +62,7 @@ def main():
         own = out.get(target, {})
         status = 'CAUGHT' if fired else ('inconclusive(exit2)' if any(isinstance(r, dict) and r.get('code') == 2 for r in out.values()) else 'MISSED')
         caught += bool(fired)
+        status = status + ('' if target in fired or not fired else ' (NOT-BY-OWN)')
         print('%-8s %-20s fired=%s own=%s' % (seed, status, fired, (own.get('violations') or own.get('errors') or own.get('inconclusive') or '')[:2] if isinstance(own, dict) else own))
     print('%d/%d seeds caught by at least one check (checks available: %s)' % (caught, len(seeds), ' '.join(have)))
     json.dump(results, open(os.path.join(HERE, 'seeded', 'last_run.json'), 'w'), indent=1)
